@@ -73,7 +73,7 @@ P_BOUNCE = gen.profile(
 
 def cases(tier, seed):
   out = []
-  n = 40 if tier == "quick" else 240
+  n = 40 if tier == "quick" else 160
   for i in range(n):
     integ = INTEGRATORS[i % 4]
     ts = TIMESTEPS[(i // 4) % 5]
